@@ -55,11 +55,13 @@ Proof.
   unfold W, digits.
   rewrite <- (firstn_skipn i fr) at 1 2. rewrite (skipn_S_nth _ f _ Hi).
   rewrite (nth_error_nth _ _ f E).
+  assert (Htl : length (skipn (S i) fr) = length fr - S i) by apply skipn_length.
+  remember (skipn (S i) fr) as tl eqn:Etl.
   rewrite !map_app, !app_length, firstn_length. simpl. rewrite <- !app_assoc. simpl.
   apply val_lex; [lia| |].
-  - rewrite app_length, !repeat_length, map_length, skipn_length. lia.
+  - rewrite app_length, !repeat_length, map_length, Htl. lia.
   - intros d Hin. apply in_app_iff in Hin. destruct Hin as [Hin|Hin].
-    + apply in_map_iff in Hin. destruct Hin as (f' & <- & Hf'). apply in_skipn in Hf'.
+    + apply in_map_iff in Hin. destruct Hin as (f' & <- & Hf'). subst tl. apply in_skipn in Hf'.
       specialize (Hd f' Hf'). lia.
     + apply in_repeat0 in Hin. lia.
 Qed.
@@ -67,9 +69,10 @@ Qed.
 Lemma W_bound n fr : length fr <= n -> (forall f', In f' fr -> S (f_cur f') <= n) -> W n fr < S n ^ n.
 Proof.
   intros Hlen Hd. unfold W.
-  replace n with (length (digits fr ++ repeat 0 (n - length fr))) at 3.
-  2:{ unfold digits. rewrite app_length, map_length, repeat_length. lia. }
-  apply val_lt. intros d Hin. apply in_app_iff in Hin. destruct Hin as [Hin|Hin].
+  assert (Hl : length (digits fr ++ repeat 0 (n - length fr)) = n).
+  { unfold digits. rewrite app_length, map_length, repeat_length. lia. }
+  pose proof (val_lt (S n) (digits fr ++ repeat 0 (n - length fr))) as Hv. rewrite Hl in Hv.
+  apply Hv. intros d Hin. apply in_app_iff in Hin. destruct Hin as [Hin|Hin].
   - unfold digits in Hin. apply in_map_iff in Hin. destruct Hin as (f' & <- & Hf'). specialize (Hd f' Hf'). lia.
   - apply in_repeat0 in Hin. lia.
 Qed.
